@@ -161,17 +161,23 @@ Qed.
 Definition is_none {A} (o : option A) : bool := match o with None => true | Some _ => false end.
 
 (** the part of [claims_acceptable] that Claims.Validate decides *)
+Definition g5 (cf : config) (c : claims) : bool :=
+  String.eqb (c_iss c) "" && mem EmptyString (trusted_issuers cf).
+
 Definition validated (cf : config) (now : Z) (c : claims) : bool :=
-  mem (c_iss c) (trusted_issuers cf) && audience_ok cf c &&
+  negb (String.eqb (c_iss c) "") && mem (c_iss c) (trusted_issuers cf) && audience_ok cf c &&
   match_scopes (required_scopes cf) (eff_scopes c) &&
   already_valid cf now c && not_expired cf now c && not_issued_in_future cf now c.
 
 Lemma validate_spec f1 f2 cf now c :
-  sane_clock cf now -> guards_ok f1 f2 c ->
+  sane_clock cf now -> guards_ok f1 f2 c -> g5 cf c = false ->
   is_none (validate f1 f2 (effective cf) now c) = validated cf now c.
 Proof.
-  intros Hs G. unfold validate, validated, audience_ok.
+  intros Hs G G5. unfold validate, validated, audience_ok.
   rewrite eff_issuers, eff_aud, effective_scopes, (validity_spec f1 f2), (iat_spec f1 f2) by assumption.
+  unfold g5 in G5. destruct (String.eqb (c_iss c) "") eqn:E0; simpl in *.
+  { apply String.eqb_eq in E0. rewrite E0, G5. reflexivity. }
+  clear G5.
   destruct (mem (c_iss c) (trusted_issuers cf)); simpl; [|reflexivity].
   destruct (is_nil (expected_audiences cf)); simpl.
   - destruct (already_valid cf now c && not_expired cf now c) eqn:V; simpl.
@@ -195,7 +201,7 @@ Lemma claims_acceptable_split cf now c :
   claims_acceptable cf now c = negb (c_malformed c) && validated cf now c.
 Proof.
   unfold claims_acceptable, validated.
-  destruct (c_malformed c), (mem _ _), (audience_ok cf c), (match_scopes _ _), (already_valid _ _ _),
+  destruct (c_malformed c), (String.eqb (c_iss c) ""), (mem _ _), (audience_ok cf c), (match_scopes _ _), (already_valid _ _ _),
     (not_expired _ _ _), (not_issued_in_future _ _ _); reflexivity.
 Qed.
 
@@ -209,12 +215,12 @@ Qed.
 
 Lemma verify_with_key_spec f1 f2 cf now t k :
   mem (t_alg t) supported_algs = true ->
-  sane_clock cf now -> guards_ok f1 f2 (t_claims t) ->
+  sane_clock cf now -> guards_ok f1 f2 (t_claims t) -> g5 cf (t_claims t) = false ->
   is_none (verify_with_key f1 f2 (effective cf) now t k) =
   String.eqb (k_alg k) (t_alg t) && mem (k_alg k) (allowed_algs cf) && sig_ok t k &&
   claims_acceptable cf now (t_claims t).
 Proof.
-  intros Hsup Hs G. unfold verify_with_key.
+  intros Hsup Hs G G5. unfold verify_with_key.
   rewrite (supported_nonempty _ Hsup), eff_algs, claims_acceptable_split. simpl.
   destruct (String.eqb (k_alg k) (t_alg t)); simpl; [|reflexivity].
   destruct (mem (k_alg k) (allowed_algs cf)); simpl; [|reflexivity].
@@ -227,7 +233,7 @@ Qed.
 
 Lemma key_acceptable_split f1 f2 cf now t k :
   mem (t_alg t) supported_algs = true ->
-  sane_clock cf now -> guards_ok f1 f2 (t_claims t) ->
+  sane_clock cf now -> guards_ok f1 f2 (t_claims t) -> g5 cf (t_claims t) = false ->
   key_valid cf k && is_none (verify_with_key f1 f2 (effective cf) now t k) =
   key_acceptable cf t k && claims_acceptable cf now (t_claims t).
 Proof.
@@ -259,12 +265,12 @@ Proof. intro H. induction l as [|x r IH]; simpl; [reflexivity|]. rewrite H, IH. 
 (** verifyToken succeeds exactly when the specification's key and claim conditions hold *)
 Lemma verify_token_spec f1 f2 cf ks now t :
   mem (t_alg t) supported_algs = true ->
-  sane_clock cf now -> guards_ok f1 f2 (t_claims t) ->
+  sane_clock cf now -> guards_ok f1 f2 (t_claims t) -> g5 cf (t_claims t) = false ->
   is_none (verify_token f1 f2 cf ks now t) =
   t_payload_obj t && remote_up cf && existsb (key_acceptable cf t) (candidate_keys ks t) &&
   claims_acceptable cf now (t_claims t).
 Proof.
-  intros Hsup Hs G. unfold verify_token, remote_up, candidate_keys.
+  intros Hsup Hs G G5. unfold verify_token, remote_up, candidate_keys.
   destruct (t_payload_obj t); simpl; [|reflexivity].
   destruct (cf_remote cf); simpl; try reflexivity.
   destruct (String.eqb (t_kid t) "").
@@ -275,7 +281,7 @@ Proof.
     destruct (existsb (key_acceptable cf t) ks && claims_acceptable cf now (t_claims t)); reflexivity.
   - unfold get_key.
     destruct (filter (fun k => String.eqb (k_kid k) (t_kid t)) ks) as [|k [|k' r]]; simpl; try reflexivity.
-    pose proof (key_acceptable_split f1 f2 cf now t k Hsup Hs G) as E.
+    pose proof (key_acceptable_split f1 f2 cf now t k Hsup Hs G G5) as E.
     destruct (key_valid cf k) eqn:V; simpl in *.
     + rewrite E. rewrite orb_false_r. reflexivity.
     + rewrite orb_false_r. rewrite <- E. reflexivity.
@@ -287,13 +293,14 @@ Definition cred_guards_ok (f1 f2 : bool) (cr : cred) : Prop :=
   match cr with CToken t => guards_ok f1 f2 (t_claims t) | _ => True end.
 
 Theorem authenticate_gen_spec f1 f2 cf ks now cr :
-  sane_clock cf now -> cred_guards_ok f1 f2 cr ->
+  sane_clock cf now -> cred_guards_ok f1 f2 cr -> guard_F5 cf cr = false ->
   accepted_sub (authenticate_gen f1 f2 cf ks now cr) = spec_accepts cf ks now cr.
 Proof.
-  intros Hs G. destruct cr as [| |t]; try reflexivity.
+  intros Hs G G5. destruct cr as [| |t]; try reflexivity.
   unfold authenticate_gen, spec_accepts, subject_id.
+  change parsable_algs with supported_algs.
   destruct (mem (t_alg t) supported_algs) eqn:Hsup; simpl; [|reflexivity].
-  pose proof (verify_token_spec f1 f2 cf ks now t Hsup Hs G) as E.
+  pose proof (verify_token_spec f1 f2 cf ks now t Hsup Hs G G5) as E.
   destruct (verify_token f1 f2 cf ks now t) as [e|]; simpl in E.
   - rewrite <- E. reflexivity.
   - rewrite <- E. simpl.
@@ -301,12 +308,12 @@ Proof.
 Qed.
 
 (** The authenticator as it is creates a subject exactly when the specification does,
-    and it is the specification's subject (outside the exotic C05-F3). *)
+    and it is the specification's subject (outside the open findings C05-F3 and C05-F5). *)
 Theorem authenticate_spec cf ks now cr :
-  sane_clock cf now -> guard_F3 cr = false ->
+  sane_clock cf now -> open_guards cf cr = false ->
   accepted_sub (authenticate cf ks now cr) = spec_accepts cf ks now cr.
 Proof.
-  intros Hs G. apply authenticate_gen_spec; [exact Hs|].
+  intros Hs G. apply orb_false_iff in G as [G G5]. apply authenticate_gen_spec; [exact Hs| |exact G5].
   destruct cr as [| |t]; simpl in *; try exact I.
   destruct (c_exp (t_claims t)) as [e|]; [|discriminate].
   intro E. injection E as ->. rewrite Z.eqb_refl in G. discriminate.
@@ -314,10 +321,10 @@ Qed.
 
 (** The authenticator as it was before a3a89b7 / f16c3cc did so outside C05-F1 and C05-F2. *)
 Theorem pinned_spec cf ks now cr :
-  sane_clock cf now -> guard_F1 cr = false -> guard_F2 cr = false ->
+  sane_clock cf now -> guard_F1 cr = false -> guard_F2 cr = false -> guard_F5 cf cr = false ->
   accepted_sub (authenticate_pinned cf ks now cr) = spec_accepts cf ks now cr.
 Proof.
-  intros Hs G1 G2. apply authenticate_gen_spec; [exact Hs|].
+  intros Hs G1 G2 G5. apply authenticate_gen_spec; [exact Hs| |exact G5].
   destruct cr as [| |t]; simpl; [exact I | exact I | split; assumption].
 Qed.
 
@@ -376,7 +383,7 @@ Definition demands (cf : config) (ks : list jwk) (now : Z) (t : token) (sub : st
     sig_ok t k = true /\
     k_alg k = t_alg t /\ In (k_alg k) (allowed_algs cf) /\ In (t_alg t) supported_algs /\
     c_malformed (t_claims t) = false /\
-    In (c_iss (t_claims t)) (trusted_issuers cf) /\
+    c_iss (t_claims t) <> ""%string /\ In (c_iss (t_claims t)) (trusted_issuers cf) /\
     (expected_audiences cf <> [] ->
        exists a, In a (expected_audiences cf) /\ In a (strs_of (c_aud (t_claims t)))) /\
     match_scopes (required_scopes cf) (eff_scopes (t_claims t)) = true /\
@@ -411,13 +418,15 @@ Proof.
   unfold claims_acceptable in Hcl.
   apply andb_true_iff in Hcl as [Hcl Hiat]. apply andb_true_iff in Hcl as [Hcl Hexp].
   apply andb_true_iff in Hcl as [Hcl Hnbf]. apply andb_true_iff in Hcl as [Hcl Hsc].
-  apply andb_true_iff in Hcl as [Hcl Haud]. apply andb_true_iff in Hcl as [Hmal Hiss].
+  apply andb_true_iff in Hcl as [Hcl Haud]. apply andb_true_iff in Hcl as [Hcl Hiss].
+  apply andb_true_iff in Hcl as [Hmal Hne0].
   splits.
   - assumption.
   - unfold remote_up in Hup. destruct (cf_remote cf); try discriminate; reflexivity.
   - exists k. splits; try assumption.
     + apply mem_In; assumption.
     + destruct (c_malformed (t_claims t)); [discriminate|reflexivity].
+    + intro E0. rewrite E0 in Hne0. discriminate.
     + apply mem_In; assumption.
     + intro Hne. unfold audience_ok in Haud. apply orb_true_iff in Haud as [X|X].
       * apply is_nil_true in X. contradiction.
@@ -431,8 +440,8 @@ Lemma demands_spec_accepts cf ks now t sub :
   t_payload_obj t = true -> cf_remote cf = RUp -> demands cf ks now t sub ->
   spec_accepts cf ks now (CToken t) = Some sub.
 Proof.
-  intros Hobj Hup (k & Hin & Hkid & C & S & A & M & Hsup & Hmal & Hiss & Haud & Hsc & Hw & -> & Hne).
-  unfold spec_accepts.
+  intros Hobj Hup (k & Hin & Hkid & C & S & A & M & Hsup & Hmal & Hne0 & Hiss & Haud & Hsc & Hw & -> & Hne).
+  unfold spec_accepts. change parsable_algs with supported_algs.
   assert (mem (t_alg t) supported_algs = true) as -> by (apply mem_In; exact Hsup).
   rewrite Hobj. unfold remote_up. rewrite Hup. simpl.
   assert (existsb (key_acceptable cf t) (candidate_keys ks t) = true) as ->.
@@ -444,7 +453,8 @@ Proof.
   assert (claims_acceptable cf now (t_claims t) = true) as ->.
   { unfold claims_acceptable. apply window_ok_iff in Hw.
     apply andb_true_iff in Hw as [Hw H3]. apply andb_true_iff in Hw as [H1 H2].
-    rewrite Hmal, H1, H2, H3, Hsc. apply mem_In in Hiss. rewrite Hiss. simpl.
+    rewrite Hmal, H1, H2, H3, Hsc. apply mem_In in Hiss. rewrite Hiss.
+    assert (String.eqb (c_iss (t_claims t)) "" = false) as -> by (apply String.eqb_neq; exact Hne0). simpl.
     rewrite !andb_true_r. unfold audience_ok.
     destruct (is_nil (expected_audiences cf)) eqn:Ea; [reflexivity|]. simpl.
     apply intersects_spec. apply Haud. intro N. rewrite N in Ea. discriminate. }
@@ -453,7 +463,7 @@ Qed.
 
 (** "A subject is created only if ..." — the property's first sentence, for the code as it is *)
 Theorem accept_sound cf ks now t sub :
-  sane_clock cf now -> guard_F3 (CToken t) = false ->
+  sane_clock cf now -> open_guards cf (CToken t) = false ->
   authenticate cf ks now (CToken t) = Accepted sub ->
   demands cf ks now t sub.
 Proof.
@@ -464,7 +474,7 @@ Qed.
 
 (** ... and conversely every token meeting the demands is accepted *)
 Theorem accept_complete cf ks now t sub :
-  sane_clock cf now -> guard_F3 (CToken t) = false ->
+  sane_clock cf now -> open_guards cf (CToken t) = false ->
   t_payload_obj t = true -> cf_remote cf = RUp ->
   demands cf ks now t sub ->
   authenticate cf ks now (CToken t) = Accepted sub.
@@ -661,11 +671,27 @@ Proof.
   split; [exact ex_sane|]. vm_compute. splits; reflexivity.
 Qed.
 
+(** C05-F5 (open): metadata without issuer, no issuers configured: a correctly signed token without `iss` is accepted *)
+Theorem F5_refuted :
+  exists cf ks now cr, sane_clock cf now /\ guard_F3 cr = false /\ guard_F5 cf cr = true /\
+    accepted_sub (authenticate cf ks now cr) = Some "alice"%string /\ spec_accepts cf ks now cr = None.
+Proof.
+  exists {| cf_proto := {| e_issuers := []; e_scopes := None; e_aud := []; e_algs := []; e_leeway := 0 |};
+            cf_rule := None; cf_md_issuer := ""; cf_validate_jwk := true; cf_id_from := "sub"; cf_remote := RUp |},
+         ex_keys, ex_now,
+         (CToken {| t_alg := "ES256"; t_kid := "k1"; t_payload_obj := true;
+                    t_claims := {| c_iss := ""; c_aud := SAbsent; c_scp := SAbsent; c_scope := SAbsent;
+                                   c_exp := Some 1790000600%Z; c_nbf := None; c_iat := None; c_malformed := false;
+                                   c_fields := [("sub", "alice")]%string |};
+                    t_sig := [3%N] |}).
+  split; [unfold sane_clock; splits; vm_compute; congruence|]. vm_compute. splits; reflexivity.
+Qed.
+
 (** non-vacuity: the hypotheses of [accept_sound] / [accept_complete] are met by an accepted token at the
     edge of its validity (exp = now - leeway + 1, nbf = iat = now + leeway) ... *)
 Example nonvacuous :
   let t := ex_token (Some 1789999991%Z) (Some 1790000010%Z) (Some 1790000010%Z) in
-  sane_clock ex_cf ex_now /\ guard_F3 (CToken t) = false /\
+  sane_clock ex_cf ex_now /\ open_guards ex_cf (CToken t) = false /\
   authenticate ex_cf ex_keys ex_now (CToken t) = Accepted "alice" /\
   (* ... and one second further it is rejected *)
   authenticate ex_cf ex_keys ex_now (CToken (ex_token (Some 1789999990%Z) None None)) = Failed EAssertion /\
@@ -808,9 +834,6 @@ Proof.
 Qed.
 
 Lemma merge_precedence : forall cf,
-  effective cf = merge (rule_level cf)
-                   (merge (proto_defaults (cf_proto cf))
-                      {| e_issuers := [cf_md_issuer cf]; e_scopes := None; e_aud := []; e_algs := []; e_leeway := 0 |}) /\
   e_issuers (effective cf) = trusted_issuers cf /\
   e_algs (effective cf) = allowed_algs cf /\
   e_aud (effective cf) = expected_audiences cf /\
@@ -819,7 +842,6 @@ Lemma merge_precedence : forall cf,
   forall a b c, merge (merge a b) c = merge a (merge b c).
 Proof.
   intro cf. repeat split.
-  - apply effective_as_merge.
   - apply eff_issuers.
   - apply eff_algs.
   - apply eff_aud.
@@ -837,7 +859,7 @@ Lemma demands_unfold : forall cf ks now t sub,
     sig_ok t k = true /\
     k_alg k = t_alg t /\ In (k_alg k) (allowed_algs cf) /\ In (t_alg t) supported_algs /\
     c_malformed (t_claims t) = false /\
-    In (c_iss (t_claims t)) (trusted_issuers cf) /\
+    c_iss (t_claims t) <> ""%string /\ In (c_iss (t_claims t)) (trusted_issuers cf) /\
     (expected_audiences cf <> [] ->
        exists a, In a (expected_audiences cf) /\ In a (strs_of (c_aud (t_claims t)))) /\
     match_scopes (required_scopes cf) (eff_scopes (t_claims t)) = true /\
@@ -846,3 +868,13 @@ Lemma demands_unfold : forall cf ks now t sub,
      (forall i, c_iat (t_claims t) = Some i -> secs i <= now + leeway cf)%Z) /\
     sub = lookup (cf_id_from cf) (c_fields (t_claims t)) /\ sub <> ""%string.
 Proof. intros. reflexivity. Qed.
+
+Lemma algorithm_tables :
+  supported_algs = parsable_algs /\ default_allowed_algs = allowed_by_default /\
+  (forall a, In a ["none"; "None"; "NONE"; "nOnE"; ""]%string -> ~ In a parsable_algs) /\
+  (forall a, In a ["HS256"; "HS384"; "HS512"; "RS256"; "RS384"; "RS512"; "EdDSA"; "none"]%string -> ~ In a allowed_by_default).
+Proof.
+  split; [reflexivity|]. split; [reflexivity|]. split.
+  - exact none_not_supported.
+  - exact default_algs_exclude.
+Qed.
